@@ -1,5 +1,6 @@
 """C05 — LEF write-then-read returns the library that was written."""
 import re, time
+from analysis.inline import inlined
 from analysis import lefsim as ls, ordering as od
 from analysis.mir import Body, callee_name, callee_id, op_const
 from rules import lefrules as lr
@@ -37,6 +38,90 @@ def fmt_tok(t):
     if k == "W":
         return t[1]
     return str(t)
+
+
+def rule_version_gates(ctx, rid, parsers=None):
+    F = ctx.F
+    if parsers is None:
+        parsers = [f for f in F.fns.values() if f.id.startswith("lef21::read::") and "LefParser" in f.name and f.kind != "Closure"]
+    # ---- R05.4 version gates
+    def gates(fns, is_writer):
+        """{struct field guarded: (comparison, static version constant)}"""
+        out = {}
+        for f in fns:
+            # a gate folded into a small helper (`self.expect_version_upto(&V5P4)`) is read in place
+            b = Body(inlined(F, f, pred=lambda g_, t_: g_.id.startswith(("lef21::read::", "lef21::write::")) and g_.kind != "Closure" and not re.search(r"::(fail|fail_msg|state|error|expect|expect_key|expect_ident|expect_and_get_str|get_\w+|peek\w*|advance|matches|next_token|txt|parse_\w+|write_\w+)$", g_.short), depth=2, max_blocks=30))
+            for bi, t in b.calls():
+                n = callee_name(t) or ""
+                m = re.search(r"PartialOrd>?::(gt|ge|lt|le)$", n)
+                if not m or len(t["args"]) != 2:
+                    continue
+                # one side is session.lef_version, the other a static version constant
+                def static_of(o):
+                    depth = 0
+                    while depth < 12:
+                        depth += 1
+                        o = b.resolve_copy(o)
+                        c = (o.get("c") if o else None)
+                        if c is not None:
+                            return c.get("static")
+                        call = b.def_call(o)
+                        if call is not None:
+                            if re.search(r"::deref$|::force$|::borrow$|::as_ref$", callee_name(call) or "") and call["args"]:
+                                o = call["args"][0]
+                                continue
+                            return None
+                        rv = b.def_rvalue(o)
+                        if rv is not None and rv["k"] in ("ref", "rawptr"):
+                            o = {"cp": {"l": rv["p"]["l"], "p": []}}
+                            continue
+                        return None
+                    return None
+                st = static_of(t["args"][1]) or static_of(t["args"][0])
+                if not st:
+                    continue
+                br = od.bool_branches(b, bi)
+                if not br:
+                    continue
+                tr, fa = br
+                okb, errb = od.ret_kind_blocks(od.pruned_body(F, b))
+                pb = od.pruned_body(F, b)
+                true_fails = not (od.reach(pb, tr, removed=errb) & okb) if tr in pb.reachable else True
+                # which field does this gate protect: the nearest dominating `if let Some(..) = x.field` (writer) or
+                # the builder setter reached afterwards (reader)
+                field = None
+                if is_writer:
+                    for s_, on, taken in __import__("analysis.panics", fromlist=["x"]).dominating_guards(b, bi):
+                        rv = b.def_rvalue(on)
+                        if rv and rv["k"] == "discr":
+                            fs = [e["n"] for e in rv["p"]["p"] if isinstance(e, dict) and "f" in e]
+                            if fs:
+                                field = fs[-1]
+                else:
+                    r = od.reach(pb, fa)
+                    for x in sorted(r):
+                        u = b.term(x)
+                        if u["k"] == "call":
+                            g = F.fns.get(callee_id(u))
+                            if g is not None and g.self_ty and g.self_ty.get("s", "").endswith("Builder") and len(g.inputs) == 2 and pb.dominates(fa, x):
+                                field = g.short.split("::")[-1]
+                                break
+                if field:
+                    out[field] = (m.group(1), st.split("::")[-1], "error" if true_fails else "other", f.short, b.site(bi))
+        return out
+    wg = gates([f for f in F.fns.values() if ls.is_writer_fn(F, f)], True)
+    rg = gates(parsers, False)
+    for fld in sorted(set(wg) | set(rg)):
+        a, c = wg.get(fld), rg.get(fld)
+        if a and c and a[:3] == c[:3]:
+            ctx.ok(rid, fld, "both sides: version %s %s -> %s" % (a[0], a[1], a[2]))
+        elif a and not c:
+            ctx.violation(rid, fld, "the writer refuses `%s` when the version is %s %s (%s) but the reader accepts it at any version: a library the reader produced cannot be written" % (fld, a[0], a[1], a[3]), a[4], fld)
+        elif c and not a:
+            ctx.violation(rid, fld, "the reader rejects `%s` when the version is %s %s but the writer emits it at any version: the written text cannot be read back" % (fld, c[0], c[1]), c[4], fld)
+        else:
+            ctx.violation(rid, fld, "version gate differs: writer %s, reader %s" % (a[:3], c[:3]), a[4], fld)
+    ctx.count("version_gates", {"writer": sorted(wg), "reader": sorted(rg)})
 
 
 def run(ctx):
@@ -170,83 +255,7 @@ def run(ctx):
                 ctx.violation("R05.1", key, "%s never reads %s: the field is lost when the library is written" % (wf.short, key), "%s:%d" % (wf.sp[0], wf.sp[1]), key)
     ctx.floor("R05.1", "model_fields", n_f, 60)
 
-    # ---- R05.4 version gates
-    def gates(fns, is_writer):
-        """{struct field guarded: (comparison, static version constant)}"""
-        out = {}
-        for f in fns:
-            b = Body(f)
-            for bi, t in b.calls():
-                n = callee_name(t) or ""
-                m = re.search(r"PartialOrd>?::(gt|ge|lt|le)$", n)
-                if not m or len(t["args"]) != 2:
-                    continue
-                # one side is session.lef_version, the other a static version constant
-                def static_of(o):
-                    depth = 0
-                    while depth < 12:
-                        depth += 1
-                        o = b.resolve_copy(o)
-                        c = (o.get("c") if o else None)
-                        if c is not None:
-                            return c.get("static")
-                        call = b.def_call(o)
-                        if call is not None:
-                            if re.search(r"::deref$|::force$|::borrow$|::as_ref$", callee_name(call) or "") and call["args"]:
-                                o = call["args"][0]
-                                continue
-                            return None
-                        rv = b.def_rvalue(o)
-                        if rv is not None and rv["k"] in ("ref", "rawptr"):
-                            o = {"cp": {"l": rv["p"]["l"], "p": []}}
-                            continue
-                        return None
-                    return None
-                st = static_of(t["args"][1]) or static_of(t["args"][0])
-                if not st:
-                    continue
-                br = od.bool_branches(b, bi)
-                if not br:
-                    continue
-                tr, fa = br
-                okb, errb = od.ret_kind_blocks(od.pruned_body(F, b))
-                pb = od.pruned_body(F, b)
-                true_fails = not (od.reach(pb, tr, removed=errb) & okb) if tr in pb.reachable else True
-                # which field does this gate protect: the nearest dominating `if let Some(..) = x.field` (writer) or
-                # the builder setter reached afterwards (reader)
-                field = None
-                if is_writer:
-                    for s_, on, taken in __import__("analysis.panics", fromlist=["x"]).dominating_guards(b, bi):
-                        rv = b.def_rvalue(on)
-                        if rv and rv["k"] == "discr":
-                            fs = [e["n"] for e in rv["p"]["p"] if isinstance(e, dict) and "f" in e]
-                            if fs:
-                                field = fs[-1]
-                else:
-                    r = od.reach(pb, fa)
-                    for x in sorted(r):
-                        u = b.term(x)
-                        if u["k"] == "call":
-                            g = F.fns.get(callee_id(u))
-                            if g is not None and g.self_ty and g.self_ty.get("s", "").endswith("Builder") and len(g.inputs) == 2 and pb.dominates(fa, x):
-                                field = g.short.split("::")[-1]
-                                break
-                if field:
-                    out[field] = (m.group(1), st.split("::")[-1], "error" if true_fails else "other", f.short, b.site(bi))
-        return out
-    wg = gates([f for f in F.fns.values() if ls.is_writer_fn(F, f)], True)
-    rg = gates(parsers, False)
-    for fld in sorted(set(wg) | set(rg)):
-        a, c = wg.get(fld), rg.get(fld)
-        if a and c and a[:3] == c[:3]:
-            ctx.ok("R05.4", fld, "both sides: version %s %s -> %s" % (a[0], a[1], a[2]))
-        elif a and not c:
-            ctx.violation("R05.4", fld, "the writer refuses `%s` when the version is %s %s (%s) but the reader accepts it at any version: a library the reader produced cannot be written" % (fld, a[0], a[1], a[3]), a[4], fld)
-        elif c and not a:
-            ctx.violation("R05.4", fld, "the reader rejects `%s` when the version is %s %s but the writer emits it at any version: the written text cannot be read back" % (fld, c[0], c[1]), c[4], fld)
-        else:
-            ctx.violation("R05.4", fld, "version gate differs: writer %s, reader %s" % (a[:3], c[:3]), a[4], fld)
-    ctx.count("version_gates", {"writer": sorted(wg), "reader": sorted(rg)})
+    rule_version_gates(ctx, "R05.4", parsers)
     lr.rule_indent_pairing(ctx, "R05.5")
     ctx.assume("A-LEX: the LEF lexer ends a token at whitespace and treats ';' '\"' '#' specially only at the start of a token; names are not keywords; Decimal/number Display prints one token")
     ctx.assume("values of String fields are single tokens (names); locally computed strings are existential wildcards, which can hide but never create a mismatch")
